@@ -69,6 +69,7 @@ inductive Val
   | data                 -- an int
   | inst (h : Helper)    -- an instance of a helper class
   | cls (h : Helper)     -- a helper class itself
+  | fn (f : Fn)          -- a plain function object stored as a value (instance attribute `obj.k = f`)
   deriving DecidableEq, Repr
 
 inductive Member
@@ -251,6 +252,7 @@ def objMarked : Obj → Bool
   | .val .data => false
   | .val (.inst h) => h.exposed
   | .val (.cls h) => h.exposed
+  | .val (.fn f) => f.exposed
 
 /-- `method(*vargs, **kwargs)`; a non-callable makes the default methodcall_error_handler fail with an
     AttributeError (`method.__qualname__`), which is what reaches the client -/
@@ -259,6 +261,7 @@ def callObj : Obj → Except Err Unit × List Nat
   | .val .data => (.error .attr, [])
   | .val (.inst h) => if h.hasCall then (.ok (), [h.callId]) else (.error .attr, [])
   | .val (.cls h) => (.ok (), [h.initId])
+  | .val (.fn f) => (.ok (), [f.fid])
 
 /-! ### requests and gates -/
 
@@ -383,6 +386,54 @@ def dispatch (cfg : Cfg) (sh : Shape) (r : Req) : Reply × List Nat :=
     (if r.oneway then .none else match res with
       | .ok () => .result
       | .error e => .error e, eff)
+
+/-! ### histories: the object changes between requests (no gate keeps a memory of earlier states) -/
+
+/-- `d[k] = v`: replace the entry if the key exists, else add one -/
+def setKey {α : Type} (k : Name) (v : α) : List (Name × α) → List (Name × α)
+  | [] => [(k, v)]
+  | (k', v') :: rest => if k' = k then (k, v) :: rest else (k', v') :: setKey k v rest
+
+/-- `del d[k]` -/
+def delKey {α : Type} (k : Name) : List (Name × α) → List (Name × α)
+  | [] => []
+  | (k', v') :: rest => if k' = k then delKey k rest else (k', v') :: delKey k rest
+
+def modifyClass (f : Class → Class) : Nat → List Class → List Class
+  | _, [] => []
+  | 0, c :: rest => f c :: rest
+  | i + 1, c :: rest => c :: modifyClass f i rest
+
+/-- what user code can do to a registered object at run time -/
+inductive Step
+  | setInst (k : Name) (v : Val)                   -- obj.k = v
+  | delInst (k : Name)                             -- del obj.k
+  | setMember (ci : Nat) (k : Name) (m : Member)   -- setattr(type(obj).__mro__[ci], k, m)   (no class decorator runs again)
+  | delMember (ci : Nat) (k : Name)                -- delattr(type(obj).__mro__[ci], k)
+  deriving DecidableEq, Repr
+
+def applyStep (sh : Shape) : Step → Shape
+  | .setInst k v => { sh with inst := setKey k v sh.inst }
+  | .delInst k => { sh with inst := delKey k sh.inst }
+  | .setMember ci k m => { sh with mro := modifyClass (fun c => { members := setKey k m c.members }) ci sh.mro }
+  | .delMember ci k => { sh with mro := modifyClass (fun c => { members := delKey k c.members }) ci sh.mro }
+
+inductive Event
+  | step (s : Step)
+  | req (r : Req)
+  deriving DecidableEq, Repr
+
+/-- replies and effect logs of the requests of a history, in order -/
+def runHistory (cfg : Cfg) : Shape → List Event → List (Reply × List Nat)
+  | _, [] => []
+  | sh, .step s :: rest => runHistory cfg (applyStep sh s) rest
+  | sh, .req r :: rest => dispatch cfg sh r :: runHistory cfg sh rest
+
+/-- the state of the object at the time of each request of a history -/
+def statesOf : Shape → List Event → List (Shape × Req)
+  | _, [] => []
+  | sh, .step s :: rest => statesOf (applyStep sh s) rest
+  | sh, .req r :: rest => (sh, r) :: statesOf sh rest
 
 /-! ### advertised metadata (server.py:907-955 `_get_exposed_members`, only_exposed = True) -/
 
